@@ -760,7 +760,10 @@ def shard_covers(seed, idx, n):
     E = L.Examiner()
     try:
         core = bool(idx % 2)
-        for tag, program in (("string-cover", G.build_string_cover_program(core, part=idx, parts=n)), ("cross-namespace-cover", G.build_cross_namespace_cover_program(not core))):
+        from checks.c04 import dependency_diamond_program, import_diamond_program
+
+        for tag, program in (("string-cover", G.build_string_cover_program(core, part=idx, parts=n)), ("cross-namespace-cover", G.build_cross_namespace_cover_program(not core)),
+                             ("dependency-diamond-cover", dependency_diamond_program(core, idx % 2)), ("import-diamond-cover", import_diamond_program(not core))):
             hs = 1 + (seed * 17 + idx) % 4000000
             for key, what in run_program(E, program, False, hs, res):
                 res.add_finding(key, what, {"key": key, "kind": "program", "program": program.to_json(), "black": False, "hashseed": hs})
